@@ -160,6 +160,9 @@ bool exec_spline(ExecCtx &c) {
               Fn expect = fn_of(s);
 #endif
               libcall(out, [&] { d = s; });
+              if ((out.status == ST_BSPLINE || out.status == ST_OTHER_EXC) && !fault_fired())
+                add_violation(c, "C03", "valid-call-threw", "assignment threw " + std::string(status_name(out.status)),
+                              "Spline::operator=");
               if (out.status == ST_OK) {
                 out.obs = hmix(out.obs, hash_spline(d));
 #ifdef SIM_EXACT
